@@ -379,12 +379,12 @@ def run_family(ctx, prop, gen_args, describe):
         cl = classify(r, v)
         if cl is None:
             continue
-        if v[4] == 1:
-            # inside D3 the theorem C03_select_is_solutions_partial says model = specification; the model agrees with the
+        if v[4] >= 1:
+            # inside D3 / D10 the theorems C03_select_is_solutions_partial / C10_select_is_left_join_partial say model = specification; the model agrees with the
             # implementation on this case, so a deviation here contradicts the theorem's reading of the case
             nviol += 1
             if nviol <= 5:
-                ctx.violation({"kind": "deviation-inside-D3", "query": r["query"], "graph_texts": r["graph_texts"], "observed": r["result"]})
+                ctx.violation({"kind": "deviation-inside-D3-or-D10", "query": r["query"], "graph_texts": r["graph_texts"], "observed": r["result"]})
             continue
         fid, why = cl
         if fid == "combination":
@@ -428,8 +428,10 @@ def run_family(ctx, prop, gen_args, describe):
         "outcomes": {k: sum(1 for r in rows if r["result"]["kind"] == k) for k in sorted(set(r["result"]["kind"] for r in rows))},
         "empty_results": empty, "clauses": {str(n): sum(1 for r in cases if len(r["clauses"] or []) == n) for n in range(1, 6)},
         "meets_spec": sum(1 for v in verd if v[1] == 2), "deviations_by_finding": excused,
-        "inside_D3": sum(1 for v in verd if v[4] == 1),
-        "inside_D3_with_rows": sum(1 for r, v in zip(cases, verd) if v[4] == 1 and r["result"].get("rows")),
+        "inside_D3": sum(1 for v in verd if v[4] == 2),
+        "inside_D3_with_rows": sum(1 for r, v in zip(cases, verd) if v[4] == 2 and r["result"].get("rows")),
+        "inside_D10_only": sum(1 for v in verd if v[4] == 1),
+        "inside_D10_only_with_rows": sum(1 for r, v in zip(cases, verd) if v[4] == 1 and r["result"].get("rows")),
         "max_rows": max([len(r["result"].get("rows") or []) for r in rows] + [0]),
     }
     if rows and (errs > 0.3 * len(rows)):
